@@ -2,11 +2,15 @@
    Statements only.  PARTIAL: the theorems cover (i) finite facts about the
    nine scheme files regenerated from /repo on every run and (ii) the
    data-directory cache and the name-or-path decision; loading in the three
-   ways with identical contents, evaluation of every group, and the
-   uncertainty blocks (square, symmetric, sized, PSD - numerically) are
-   exhaustive runs on the implementation in this check. *)
-From Coq Require Import List NArith Bool.
+   ways with identical contents and evaluation of every group are exhaustive
+   runs on the implementation in this check; (iii) the uncertainty matrices,
+   regenerated from the data files as exact integer matrices (entry = double
+   x 2^scale): square, symmetric and POSITIVE SEMI-DEFINITE by a certificate
+   the kernel checks on every run (Lib/Psd.v: M = L L^T + D with D symmetric
+   and diagonally dominant; the factor L is untrusted input). *)
+From Coq Require Import List NArith ZArith Bool Reals.
 From PG Require Import Common.Strs Graph.Scheme Graph.SchemeLoad Graph.Scheme_proofs Gen.Schemes Lib.DataDir Lib.DataDir_proofs.
+From PG Require Import Thermo.Num Thermo.Estimate Lib.Psd Lib.Psd_proofs Lib.Psd_link Lib.Psd_cert Gen.UqMats.
 Import ListNotations.
 
 (* every pattern of every shipped scheme is readable; remaps are well-formed,
@@ -40,3 +44,27 @@ Theorem C14_path_like_is_path : forall ex p, existsb (N.eqb SEP) p = true \/ exi
   forall d f, resolve ex d p f = p.
 Proof. exact path_like_is_path. Qed.
 Print Assumptions C14_path_like_is_path.
+
+(* ---------- the uncertainty matrices ---------- *)
+(* any integer matrix with a factor passing the check is positive semi-definite (x : index -> real) *)
+Theorem C14_certificate_sound : forall n m M L, cert_ok n m M L = true ->
+  forall x : nat -> R, (0 <= quadf n (fun i j => IZR (entZ M i j)) x)%R.
+Proof. exact cert_psd. Qed.
+Print Assumptions C14_certificate_sound.
+
+(* the regenerated matrices of the shipped libraries: square n x n (n = size of the basis), symmetric, certificate accepted *)
+Theorem C14_uq_certificates : forall kv, In kv uq_all -> uq_entry_ok (snd kv) = true.
+Proof. exact uq_entries_ok. Qed.
+Theorem C14_three_uq_libraries : length uq_all = 3%nat.
+Proof. reflexivity. Qed.
+
+(* hence x'Mx >= 0 for the matrix the library uses (integers / 2^scale), every real count vector of the size of the basis:
+   the quadratic form is the list-based quad_form of the estimate model (C20) *)
+Theorem C14_uq_psd : forall kv, In kv uq_all ->
+  let '(n, m, M, L) := snd kv in
+  forall s : Z, (0 <= s)%Z -> forall xs : list R, length xs = n -> (0 <= quad_form (K:=Rops) xs (uq_real s M))%R.
+Proof. exact uq_psd. Qed.
+Print Assumptions C14_uq_psd.
+
+Example C14_certificate_example : cert_ok 2 2 [[6; 2]; [2; 2]]%Z [[2; 1]; [1; 0]]%Z = true.
+Proof. reflexivity. Qed.
